@@ -1,11 +1,13 @@
 SPECIFICATION Spec
 CONSTANTS
   Rule = "max"
-  Families = {"geo", "rev", "gap", "phot", "two"}
+  Families = {"geo", "rev", "gap", "phot", "two", "ovl"}
   Starts = {7, 18, 30, 41}
   Lens = {3, 4, 5, 6}
   ASet = {0, 1, 3}
   ARef = 2
+  Search = "each"
+  OvlN = 4
   Licensed = TRUE
   Export = TRUE
 INVARIANT LikelihoodOfFullGrid
